@@ -50,8 +50,8 @@ Proof.
   unfold dispatch_command. intros H.
   destruct parts as [|first rest]; [kdone H|].
   destruct first; try kdone H.
-  set (s0 := if mem_name (upper b) write_commands then log_aof_in s dbi (FBulk b :: rest) else s) in *.
-  assert (K0 : keeps s s0) by (unfold s0; destruct (mem_name (upper b) write_commands); [apply keeps_log_aof_in | apply keeps_refl]).
+  set (s0 := if logs_before (upper b) (FBulk b :: rest) then log_aof_in s dbi (FBulk b :: rest) else s) in *.
+  assert (K0 : keeps s s0) by (unfold s0; destruct (logs_before (upper b) (FBulk b :: rest)); [apply keeps_log_aof_in | apply keeps_refl]).
   apply (keeps_trans _ _ _ K0). clear K0.
   destruct (beq (upper b) (bs "PING")); [kdone H|].
   destruct (beq (upper b) (bs "ECHO")); [kdone H|].
